@@ -30,6 +30,7 @@ class Actors:
             def method(self, *args, **kwargs):
                 it.last_owner = owner       # which class's function ran
                 it.cb(self, mname, args, kwargs)
+                return it.retval(self)      # return values mean nothing
             method.__name__ = mname
             method._owner = owner
             return method
@@ -44,6 +45,8 @@ class Actors:
         self.Mixin = type('Mixin', (), {'helper': lambda self: None})
         self.classes = []
         self.emap = []                  # model: event -> method, per class
+        self.own = []                   # own __events__ (None: looked up in
+                                        # the base, dynamically)
         for i, spec in enumerate(config['hclasses']):
             base = spec.get('base')
             bases = (self.classes[base],) if base is not None else (
@@ -68,6 +71,34 @@ class Actors:
             inherited.update(own)
             self.classes.append(cls)
             self.emap.append(inherited)
+            self.own.append(dict(inherited) if isinstance(deco, dict)
+                            else None)
+
+    def mapping(self, i, own=None):
+        own = self.own if own is None else own
+        while i is not None:
+            if own[i] is not None:
+                return dict(own[i])
+            i = self.config['hclasses'][i].get('base')
+        return {}
+
+    def redecorate(self, ci, names, maps, dry=False):
+        """event_handler applied once more to an existing class: its mapping
+        is extended / overridden; classes that have a mapping of their own
+        keep it, undecorated subclasses follow.  Returns the classes whose
+        mapping changes."""
+        own = list(self.own)
+        new = self.mapping(ci)
+        new.update({n: n for n in names})
+        new.update(maps)
+        own[ci] = new
+        changed = [i for i in range(len(self.classes))
+                   if self.mapping(i, own) != self.emap[i]]
+        if not dry:
+            self.desper.event_handler(*names, **maps)(self.classes[ci])
+            self.own = own
+            self.emap = [self.mapping(i) for i in range(len(self.classes))]
+        return changed
 
     def check_mappings(self, fail):
         """'without altering the bases': every class maps what the model
@@ -145,6 +176,32 @@ class Interp:
 
     def emap(self, s):
         return self.actors.emap[self.cfg['handlers'][s]]
+
+    RETURNS = {'T': True, 'F': False, '0': 0, '1': 1, 's': 'handled',
+               'N': NotImplemented}
+
+    def retval(self, obj):
+        lab = getattr(obj, '_label', '?')
+        code = self.cfg.get('returns', {}).get(lab[1:])
+        if code is not None:
+            self.probes['callback_returned_value'] += 1
+        return self.RETURNS.get(code)
+
+    def op_redeco(self, op):
+        """The decorator applied again to a class whose instances have been
+        (but are not now) registered."""
+        _, ci, names, maps = op
+        if self.depth or self.queue or ci >= len(self.actors.classes) \
+                or not (names or maps):
+            return 'skip'
+        changed = self.actors.redecorate(ci, names, maps, dry=True)
+        busy = set(self.registered) | set(self.eids) | self.held | \
+            self.limbo | self.limbo_unreg | self.die_later
+        if any(self.cfg['handlers'][s] in changed for s in busy):
+            return 'skip'
+        self.actors.redecorate(ci, names, maps)
+        self.probes['redecorated_class'] += 1
+        self.actors.check_mappings(self.fail)
 
     def alive(self, s):
         r = self.wrefs.get(s)
@@ -910,6 +967,9 @@ def gen_config(prop, rng):
     cfg = {'policy': rng.choice(kernel.POLICIES), 'dkind': dkind,
            'hclasses': hclasses, 'handlers': handlers,
            'cyclic': [], 'weak_slots': []}
+    if rng.random() < .25:
+        cfg['returns'] = {str(s): rng.choice('TTF01sN') for s in range(n)
+                          if rng.random() < .6}
     if prop == 'C10':
         cfg['cyclic'] = [s for s in range(n) if rng.random() < .15]
         if dkind == 'world':
@@ -1014,6 +1074,28 @@ def generate(prop, run_seed, tier='quick', tolerate=frozenset()):
                         and rng.random() < .5 else 'add_handler', s])
     while len(ops) < n:
         ops.append(gen_top_op(rng.choices(kinds, wts)[0], rng, cfg, state))
+    if prop == 'C03' and crng.random() < .12:
+        # the decorator applied again to a class that has been in use
+        ci = crng.randrange(len(cfg['hclasses']))
+        fam = {ci}
+        for i, h in enumerate(cfg['hclasses']):
+            if h.get('base') in fam:
+                fam.add(i)
+        slots = [s for s, c in enumerate(cfg['handlers']) if c in fam]
+        names = [e for e in EVENTS if crng.random() < .3]
+        maps = {e: crng.choice(['x', 'y']) for e in EVENTS
+                if e not in names and crng.random() < .25}
+        if not names and not maps:
+            names = ['d']
+        block = [['remove_handler', s] for s in slots]
+        block.append(['redeco', ci, names, maps])
+        block += [['add_handler', s] for s in slots if crng.random() < .8]
+        for e in list(names) + list(maps):
+            state['token'] += 1
+            block.append(['dispatch', e, state['token'],
+                          crng.choice([0, 1, 2, 3])])
+        k = crng.randint(0, len(ops))
+        ops[k:k] = block
     if prop == 'C04' and crng.random() < .004:
         # a very long backlog (bounded buffers): one listener, no scripts
         ops = [['add_handler', 0], ['disable'],
@@ -1169,7 +1251,8 @@ PROBES = {
     'C03': ['double_registration', 'remove_unregistered',
             'reentrant_dispatch', 'remove_mid_dispatch',
             'kwargs_only_dispatch', 'multi_class_dispatch',
-            'dispatch_nobody_listens', 'overridden_callback_called'],
+            'dispatch_nobody_listens', 'overridden_callback_called',
+            'callback_returned_value', 'redecorated_class'],
     'C04': ['fault_pos.first', 'fault_pos.middle', 'fault_pos.last',
             'release_aborted_by_raise', 'release_cut_by_nested_disable',
             'nested_enable_inside_release', 'raise_then_second_enable',
